@@ -378,22 +378,43 @@ type Map struct {
 
 func (m *Map) pt() { simrt.Point(simrt.OpAtomic, unsafe.Pointer(m), 0) }
 
-func (m *Map) Load(key any) (any, bool)               { m.pt(); return m.m.Load(key) }
-func (m *Map) Store(key, value any)                   { m.pt(); m.m.Store(key, value) }
-func (m *Map) LoadOrStore(key, value any) (any, bool) { m.pt(); return m.m.LoadOrStore(key, value) }
-func (m *Map) LoadAndDelete(key any) (any, bool)      { m.pt(); return m.m.LoadAndDelete(key) }
-func (m *Map) Delete(key any)                         { m.pt(); m.m.Delete(key) }
-func (m *Map) Swap(key, value any) (any, bool)        { m.pt(); return m.m.Swap(key, value) }
+func (m *Map) Load(key any) (any, bool) { m.pt(); return m.m.Load(key) }
+func (m *Map) Store(key, value any)     { m.pt(); m.m.Store(simrt.Key(key), value) }
+func (m *Map) LoadOrStore(key, value any) (any, bool) {
+	m.pt()
+	return m.m.LoadOrStore(simrt.Key(key), value)
+}
+func (m *Map) LoadAndDelete(key any) (any, bool) { m.pt(); return m.m.LoadAndDelete(key) }
+func (m *Map) Delete(key any)                    { m.pt(); m.m.Delete(key) }
+func (m *Map) Swap(key, value any) (any, bool)   { m.pt(); return m.m.Swap(simrt.Key(key), value) }
 func (m *Map) CompareAndSwap(key, old, new any) bool {
 	m.pt()
 	return m.m.CompareAndSwap(key, old, new)
 }
 func (m *Map) CompareAndDelete(key, old any) bool { m.pt(); return m.m.CompareAndDelete(key, old) }
 func (m *Map) Clear()                             { m.pt(); m.m.Clear() }
+
+// Range visits the keys present when it starts, in an order the scheduler draws
+// (keys that are pointers or channels in insertion order first, see simrt.Key), each
+// with the value it holds when its turn comes; a key deleted meanwhile is skipped.
+// That is one of the behaviours sync.Map.Range allows. Every callback is preceded
+// by a scheduling point.
 func (m *Map) Range(f func(key, value any) bool) {
 	m.pt()
 	if simrt.Active() && !simrt.Aborting() {
-		simrt.Unsupported("sync.Map.Range (iteration order is not under the simulator's control)")
+		snap := map[any]any{}
+		m.m.Range(func(k, v any) bool { snap[k] = v; return true })
+		for _, k := range simrt.MapOrder(snap) {
+			m.pt()
+			v, ok := m.m.Load(k)
+			if !ok {
+				continue
+			}
+			if !f(k, v) {
+				break
+			}
+		}
+		return
 	}
 	m.m.Range(f)
 }
